@@ -42,11 +42,19 @@ Proof.
     try (left; reflexivity); try (right; vm_compute; reflexivity).
 Qed.
 
-Example fx_notext : forall n v, n < wb_n fxW -> True -> is_fcell fxW n = true -> fxF n = FVal v ->
-  py_eq v (VStr (fx_text n)) = false.
+Example fx_stored_notext : forall n, n < wb_n fxW -> is_fcell fxW n = true ->
+  py_eq (wb_stored fxW n) (VStr (fx_text n)) = false.
 Proof.
-  intros n v L _ FC H. destruct n as [|[|[|[|[|n]]]]]; [| | | | |exfalso; cbn in L; lia]; try discriminate;
-    vm_compute in H; try discriminate; try (inversion H; subst; reflexivity).
+  intros n L FC. destruct n as [|[|[|[|[|n]]]]]; [| | | | |exfalso; cbn in L; lia]; reflexivity.
+Qed.
+
+Example fx_value_notext : forall n vals v, n < wb_n fxW -> is_fcell fxW n = true ->
+  fx_sem n vals = Some v -> py_eq v (VStr (fx_text n)) = false.
+Proof.
+  intros n vals v L FC H. destruct n as [|[|[|[|[|n]]]]]; [| | | | |exfalso; cbn in L; lia]; try discriminate;
+    cbn in H; repeat match goal with
+                     | H : match ?x with _ => _ end = Some _ |- _ => destruct x; try discriminate
+                     end; inversion H; reflexivity.
 Qed.
 
 Example fx_scalar : forall n v, n < wb_n fxW -> True -> is_fcell fxW n = true -> fxF n = FVal v ->
@@ -61,10 +69,11 @@ Proof. intros o H. cbn in H. cbn. lia. Qed.
 
 Definition fx_final := validate_f fxW fx_sem fx_pre fx_order fx_text None false [1; 2; 3; 4].
 
-(* output_addrs=None: the run, by computation … *)
+(* output_addrs=None: the run, by computation (A3 is listed twice: it is among the
+   outputs and it is pushed by A4) … *)
 Example fx_computed :
   fs_todo fx_final = [] /\ fs_report fx_final = [] /\
-  fs_exc fx_final = [(3, [3; 2]); (2, [2])] /\ fs_verified fx_final = [0; 1; 4].
+  fs_exc fx_final = [(3, [3; 2]); (2, [2]); (2, [2])] /\ fs_verified fx_final = [2; 3; 0; 1; 4].
 Proof. vm_compute. auto. Qed.
 
 (* … and from the theorems, G = every node *)
@@ -72,19 +81,31 @@ Example fx_no_mismatch : forall n, n < wb_n fxW -> rep_get (fs_report fx_final) 
 Proof.
   intros n L.
   exact (mismatches_unaffected fxW fx_sem fx_pre fx_order fx_text None [1; 2; 3; 4] (fun _ => True)
-           fx_wf (fun _ _ _ _ _ => I) fx_stored_ok fx_notext fx_scalar I fx_outs n L I).
+           fx_wf (fun _ _ _ _ _ => I) fx_stored_ok fx_scalar I fx_outs n L I).
 Qed.
 
-Example fx_failing_listed : exists ch, In (2, ch) (fs_exc fx_final) /\ chain_ok fxW fx_sem fx_pre 2 ch.
+(* A3 is reached from the output A4 only through A4, which raises: it is verified
+   and listed all the same, within the fuel *)
+Example fx_failing_listed :
+  fs_todo (validate_f fxW fx_sem fx_pre fx_order fx_text None false [3]) = [] /\
+  mem 2 (fs_verified (validate_f fxW fx_sem fx_pre fx_order fx_text None false [3])) = true /\
+  exists ch, In (2, ch) (fs_exc (validate_f fxW fx_sem fx_pre fx_order fx_text None false [3])) /\
+             chain_ok fxW fx_sem fx_pre 2 ch.
 Proof.
-  apply (failing_reported fxW fx_sem fx_pre fx_order fx_text None [1; 2; 3; 4] (fun _ => True)
-           fx_wf (fun _ _ _ _ _ => I) fx_stored_ok fx_notext fx_scalar I fx_outs 2 2).
-  - vm_compute. reflexivity.
-  - cbn. auto.
-  - exact I.
-  - constructor.
-  - reflexivity.
-  - vm_compute. reflexivity.
+  assert (O: forall o, In o [3] -> o < wb_n fxW) by (intros o [<-|[]]; cbn; lia).
+  destruct (nothing_skipped fxW fx_sem fx_pre fx_order fx_text None [3] (fun _ => True)
+              fx_wf (fun _ _ _ _ _ => I) fx_stored_ok fx_scalar I fx_stored_notext fx_value_notext O 3 2)
+    as (T & V & X).
+  - left. reflexivity.
+  - right. constructor. left. reflexivity.
+  - split; [exact T|split; [exact V|]]. apply (X I eq_refl). vm_compute. reflexivity.
+Qed.
+
+Example fx_listed_bound : cnt (fs_exc fx_final) 2 <= 2.
+Proof.
+  pose proof (listed_bound fxW fx_sem fx_pre fx_order fx_text None [1; 2; 3; 4]
+                fx_wf fx_stored_notext fx_value_notext fx_outs 2) as H.
+  vm_compute in H. vm_compute. exact H.
 Qed.
 
 (* a stale result on A4 (it depends on the cell that raises): G = {A1, A2, A5} *)
@@ -108,7 +129,6 @@ Proof.
   - apply wfb_sound. vm_compute. reflexivity.
   - exact fx'_closed.
   - intros m _ gm FC. destruct gm as [E|[E|E]]; subst m; try discriminate; right; vm_compute; reflexivity.
-  - intros m v _ gm FC H. destruct gm as [E|[E|E]]; subst m; try discriminate; vm_compute in H; inversion H; reflexivity.
   - intros m v _ gm FC H. destruct gm as [E|[E|E]]; subst m; try discriminate; vm_compute in H; inversion H; reflexivity.
   - exact I.
 Qed.
